@@ -1048,3 +1048,33 @@ impl<'de> serde::de::Visitor<'de> for DataVisitor<'_> {
         Ok(())
     }
 }
+
+/// Verification hooks (compiled only with `--cfg stam_verif`): read-only dumps of the key->data index and id maps.
+#[cfg(stam_verif)]
+mod verif_hooks {
+    use super::*;
+    impl AnnotationDataSet {
+        /// (key handle, [data handles in storage order]) for every slot of the key->data map
+        pub fn verif_dump_key_data_map(&self) -> Vec<(usize, Vec<usize>)> {
+            self.key_data_map.verif_dump()
+        }
+        /// (kind, id, handle) for the key and data id maps
+        pub fn verif_dump_idmaps(&self) -> Vec<(&'static str, String, usize)> {
+            let mut out = Vec::new();
+            for (id, h) in self.key_idmap.verif_dump() {
+                out.push(("key", id, h));
+            }
+            for (id, h) in self.data_idmap.verif_dump() {
+                out.push(("data", id, h));
+            }
+            out
+        }
+        /// which slots of the key and data stores are occupied
+        pub fn verif_dump_slots(&self) -> (Vec<bool>, Vec<bool>) {
+            (
+                self.keys.iter().map(|x| x.is_some()).collect(),
+                self.data.iter().map(|x| x.is_some()).collect(),
+            )
+        }
+    }
+}
